@@ -406,7 +406,7 @@ package lang
 //@   at call ConvertGoType#1 assert typeis(arg0, string) && arg1 == mfd.Parameters[$idx].DataType
 //@   at call ConvertGoType#1 assert imp($idx < len(p.Parameters.params), unbox(arg0, string) == p.Parameters.params[$idx])
 //@   at call ConvertGoType#1 assert imp($idx >= len(p.Parameters.params) && mfd.Parameters[$idx].Optional, mfd.Parameters[$idx].HasDefault && unbox(arg0, string) == mfd.Parameters[$idx].Default)
-//@   at call (*Variables).Set#1 assert arg2 == mfd.Parameters[$idx].Name && arg3 == v && arg4 == mfd.Parameters[$idx].DataType && errǂ2 == nil
+//@   at call (*Variables).Set#1 assert arg2 == mfd.Parameters[$idx].Name && arg3 == ret("ConvertGoType#1", 0) && arg4 == mfd.Parameters[$idx].DataType && ret("ConvertGoType#1", 1) == nil
 //@   ensures imp(result == nil, $idx1 >= len(old(mfd.Parameters)))
 
 // The signature parser never indexes outside its parameter table for any signature
